@@ -283,19 +283,21 @@ StateAndCovariance = namedtuple("StateAndCovariance", ["state", "covariance"])
 
 
 def assert_valid_covariance(
-    covariance: NDArray, *, name: str = "Covariance", negative_tol: float = -1e-15
+    covariance: NDArray, *, name: str = "Covariance", negative_tol: float = -1e-14
 ):
     """
     Check that the covariance array is well formed:
 
     - symmetric (approximately)
-    - positive semidefinite (approximately)
+    - positive semidefinite (approximately, relative to the size and magnitude
+      of the matrix because that is the scale of eigenvalue rounding error)
     """
     assert isinstance(covariance, np.ndarray)
     assert np.allclose(covariance, covariance.T)
 
     covariance_eigenvalues = np.linalg.eig(covariance)[0]
-    if np.any(covariance_eigenvalues < negative_tol):
+    magnitude = np.max(np.abs(covariance_eigenvalues), initial=0.0)
+    if np.any(covariance_eigenvalues < negative_tol * covariance.shape[0] * magnitude):
         # negative definite matrix is not a valid representation of uncertainty
         raise AssertionError(
             f"Negative {str(name)}:\n{covariance}\nEigen Values: {min(covariance_eigenvalues)}\n{covariance_eigenvalues}"
